@@ -3,6 +3,7 @@ import QuiverModel.Core.Types.Inh
 import QuiverModel.Core.Types.Narrow
 import QuiverModel.Core.Types.Shape
 import QuiverModel.Lemmas.Types.SoundMain
+import QuiverModel.Lemmas.Types.Overlap
 /-
 C09 — Assignability implies containment; overlap detection is complete; narrowing never drops a
 value that can occur.
@@ -185,6 +186,49 @@ theorem compat_chain_sound_fo (T : Table) (hT : Ordered T) (a b c f1 f2 : Nat) (
     (h2 : isCompatible T f2 b c = some true) : ∀ v, inh T [] a v → inh T [] c v :=
   fun v hv => compat_sound_fo T hT b c f2 hb hc h2 v (compat_sound_fo T hT a b f1 ha hb h1 v hv)
 
+/-! ### Part 3: overlap detection is complete (first-order cycle-free types)
+
+Values are well-labelled (`V.wf`: no tuple carries a label twice — the only values the language can
+build). No ordering hypothesis is needed here, and nothing about the assumption set: looking an
+assumption up can only answer `true`. -/
+
+/-- **Completeness of overlap.** If two first-order cycle-free types share a well-labelled value,
+`types_overlap` does not answer `false` (so a reachable branch is never pruned as dead). -/
+theorem overlap_complete_fo (T : Table) (a b fuel : Nat) (ha : FO T a) (hb : FO T b)
+    (hv : ∃ v, v.wf = true ∧ inh T [] a v ∧ inh T [] b v) : typesOverlap T fuel a b ≠ some false := by
+  intro h
+  unfold typesOverlap at h
+  cases hc : checkRel T .any fuel [] [] a b with
+  | none => simp [hc] at h
+  | some p =>
+    obtain ⟨r, asm'⟩ := p
+    rw [hc] at h
+    simp only [Option.map_some, Option.some.injEq] at h
+    subst h
+    obtain ⟨v, hwf, hav, hbv⟩ := hv
+    exact checkRel_any_bad fuel [] [] a b asm' hc ha hb [] [] v hwf ⟨hav, hbv⟩
+
+/-- with enough fuel to get an answer at all, the answer is `true` -/
+theorem overlap_complete_fo' (T : Table) (a b fuel : Nat) (ha : FO T a) (hb : FO T b)
+    (hv : ∃ v, v.wf = true ∧ inh T [] a v ∧ inh T [] b v) (r : Bool)
+    (h : typesOverlap T fuel a b = some r) : r = true := by
+  cases r with
+  | true => rfl
+  | false => exact absurd h (overlap_complete_fo T a b fuel ha hb hv)
+
+/-- hypotheses satisfiable by a non-trivial pair: `(x: int)` and `(y: int)` share `[x: 1, y: 2]` -/
+example : FO tF15 2 ∧ FO tF15 3 ∧ vF15.wf = true ∧ inh tF15 [] 2 vF15 ∧ inh tF15 [] 3 vF15 :=
+  ⟨⟨3, by decide⟩, ⟨3, by decide⟩, by decide, ⟨4, by decide⟩, ⟨4, by decide⟩⟩
+
+/-- the well-labelled hypothesis is needed: `(x: int)` and `(x: bin)` are judged disjoint, and only
+the ill-labelled `[x: 1, x: 0x00]` (which the language cannot build) is in both -/
+theorem overlap_needs_well_labelled :
+    typesOverlap tF15 8 2 4 = some false ∧
+      inhB tF15 8 [] 2 (.tup none (.cons (some 2) (.int 1) (.cons (some 2) (.bin [0]) .nil))) = true ∧
+      inhB tF15 8 [] 4 (.tup none (.cons (some 2) (.int 1) (.cons (some 2) (.bin [0]) .nil))) = true ∧
+      (V.tup none (.cons (some 2) (.int 1) (.cons (some 2) (.bin [0]) .nil))).wf = false := by
+  decide
+
 /-! ### Full statements (all closed contractive types) — kept visible; see Part 4 for their status -/
 
 /-- the full soundness statement of C09 over closed contractive types -/
@@ -198,10 +242,28 @@ def CompatTransStatement : Prop :=
     isCompatible T fuel a b = some true → isCompatible T fuel b c = some true →
     ∃ fuel', isCompatible T fuel' a c = some true
 
+/-- narrowing never drops a value that can occur — statements on first-order types (NOT proved
+here: they need the table-extension invariants of `intersect` / `complement`; the harness
+evaluates them on the implementation's results for every sampled pair — no first-order failure in
+any run — and on recursive types they are false, see notes/C09.md R3) -/
+def IntersectKeepsStatement : Prop :=
+  ∀ (T T' : Table) (rf fuel a b r : Nat), Ordered T → FO T a → FO T b →
+    intersect rf fuel T a b = some (T', r) →
+    ∀ v, v.wf = true → inh T [] a v → inh T [] b v → inh T' [] r v
+
+def ComplementKeepsStatement : Prop :=
+  ∀ (T T' : Table) (rf fuel a b r : Nat), Ordered T → FO T a → FO T b →
+    complement rf fuel T a b = some (T', r) →
+    ∀ v, v.wf = true → inh T [] a v → ¬ inh T [] b v → inh T' [] r v
+
+def UnionFlattenStatement : Prop :=
+  ∀ (T : Table) (ids : List Nat), Ordered T → (∀ i ∈ ids, FO T i) →
+    ∀ v, inh (unionIds T ids).1 [] (unionIds T ids).2 v ↔ ∃ i ∈ ids, inh T [] i v
+
 /-- overlap detection is complete (full statement) -/
 def OverlapCompleteStatement : Prop :=
   ∀ (T : Table) (a b fuel : Nat), Ordered T → Closed T a → Closed T b →
-    (∃ v, inh T [] a v ∧ inh T [] b v) → typesOverlap T fuel a b ≠ some false
+    (∃ v, v.wf = true ∧ inh T [] a v ∧ inh T [] b v) → typesOverlap T fuel a b ≠ some false
 
 /-! ### Part 4: the full statements are FALSE of the code as it is (recursive / higher-order types)
 
@@ -256,7 +318,7 @@ theorem R2_common_value : inh tR2 [] 2 (.proc 2) ∧ inh tR2 [] 3 (.proc 2) :=
 
 /-- **the full overlap-completeness statement does not hold for process / callable types** -/
 theorem overlap_complete_fails_on_process_types : ¬ OverlapCompleteStatement := fun h =>
-  h tR2 2 3 8 (by decide) ⟨4, by decide⟩ ⟨4, by decide⟩ ⟨.proc 2, R2_common_value⟩ R2_no_overlap.1
+  h tR2 2 3 8 (by decide) ⟨4, by decide⟩ ⟨4, by decide⟩ ⟨.proc 2, by decide, R2_common_value⟩ R2_no_overlap.1
 
 /-- R4: 0 int, 1 `^1`, 2 never, 3 `#(^1 -> int)`, 4 `#(#(^1 -> int) -> int)`: the model, like the
 code, makes no progress on this pair (the callable arm records no assumption): every fuel runs out -/
